@@ -483,7 +483,12 @@ def _keygen(func, ignored, *args, **kwds):
     user_kwds.update(dict([(k,NULL) for k in names_to_ignore if k in _keys]))
     # if ignoring **kwds, then pop all not in explicitly_named
     if varkwds_to_ignore:
-        [user_kwds.pop(k) for k in kwds if k not in explicitly_named]
+        # '**' selects the extra keywords only: keyword-only parameters are named parameters
+        try:
+            kwonly = set(k for (k,p) in inspect.signature(func).parameters.items() if p.kind == p.KEYWORD_ONLY)
+        except (TypeError, ValueError):
+            kwonly = set()
+        [user_kwds.pop(k) for k in kwds if k not in explicitly_named and k not in kwonly]
 
     # NULL out args that are NULL'ed as kwds, and vice-versa 
 #   if crossref:
